@@ -39,12 +39,18 @@ type c11Item struct {
 }
 
 type c11Case struct {
-	Kind  string     `json:"kind"` // bytes | inter | sgr | utf8 | proc
+	Kind  string     `json:"kind"` // bytes | inter | sgr | utf8 | proc | disp | tostr (the last two: c11disp.go)
 	Hex   string     `json:"hex,omitempty"`
 	State *c11State  `json:"state,omitempty"`
 	Items []c11Item  `json:"items,omitempty"`
 	Lines []string   `json:"lines,omitempty"` // proc: hex per line
 	Color bool       `json:"color,omitempty"` // proc: --color=always style (theme coloured)
+	// disp: what fzf shows in a terminal.  Rows: the input lines (after a plain filler line that carries the cursor),
+	// each a stream of items; Nth: --with-nth expression ("" = option absent); Delim: -d ("" = absent); Theme: --color
+	Rows  [][]c11Item `json:"rows,omitempty"`
+	Nth   string      `json:"nth,omitempty"`
+	Delim string      `json:"delim,omitempty"`
+	Theme string      `json:"theme,omitempty"`
 }
 
 func unhex(s string) string { b, _ := hex.DecodeString(s); return string(b) }
@@ -435,6 +441,14 @@ func c11Check(c *Ctx, cs c11Case) {
 		rep.Eval(string(key), true)
 		rep.Count("kind=proc")
 		rep.CountN("proc_lines", len(cs.Lines))
+	case "disp":
+		c11CheckDisp(c, cs)
+		rep.Eval(string(key), true)
+		rep.Count("kind=disp")
+	case "tostr":
+		c11CheckToStr(c, cs)
+		rep.Eval(string(key), true)
+		rep.Count("kind=tostr")
 	}
 	rep.Sample(cs)
 }
@@ -722,7 +736,7 @@ func c11GenProc(r *RNG, nlines int) c11Case {
 }
 
 func runC11(c *Ctx) {
-	c.Rep.Rule = "byte strings: (i) arbitrary bytes over a control-heavy alphabet, damaged and truncated streams; (ii) grammar-generated interleavings of text, well-formed SGR (256-colour, 24-bit in the ';' form and in the ':' sub-parameter forms 38:5:n / 38:2:r:g:b / 38:2::r:g:b after plain parameters, resets incl. all-omitted parameters), OSC-8 with BEL/ST, other CSI/OSC/ESC-x/SO/SI, c-BS pairs, with and without a carried state; (iii) single SGR sequences in and outside the documented domain; (iv) UTF-8 helper model; (v) fzf --ansi -f '' processes. non-trivial = something was stripped / more than one item; distinct by JSON of the case"
+	c.Rep.Rule = "byte strings: (i) arbitrary bytes over a control-heavy alphabet, damaged and truncated streams; (ii) grammar-generated interleavings of text, well-formed SGR (256-colour, 24-bit in the ';' form and in the ':' sub-parameter forms 38:5:n / 38:2:r:g:b / 38:2::r:g:b after plain parameters, resets incl. all-omitted parameters), OSC-8 with BEL/ST, other CSI/OSC/ESC-x/SO/SI, c-BS pairs, with and without a carried state; (iii) single SGR sequences in and outside the documented domain; (iv) UTF-8 helper model; (v) fzf --ansi -f '' processes; (vi) the fzf process in a pseudo terminal, every character of every list row with its colour and attributes: several lines with states running from line to line, and one line under --with-nth (field lists, ranges, negative numbers, default and literal delimiters) with states opened, changed and switched off in shown and hidden fields; (vii) ansiState.ToString on states of the whole colour/attribute domain. non-trivial = something was stripped / more than one item; distinct by JSON of the case"
 	if c.Replay != "" {
 		var cs c11Case
 		b, err := os.ReadFile(c.Replay)
@@ -768,6 +782,9 @@ func runC11(c *Ctx) {
 		c11Check(c, c11Case{Kind: "sgr", Items: []c11Item{c11GenXSgr(r)}, State: c11GenState(r)})
 	})
 	parallel(c, c.N(3000, 60000), func(i int, r *RNG) { c11Check(c, c11GenInterX(r, r.Chance(1, 8), true)) })
+	// what reaches the screen (c11disp.go): lines and --with-nth fields in a pseudo terminal; ansiState.ToString
+	parallel(c, c.N(3000, 60000), func(i int, r *RNG) { c11Check(c, c11GenToStr(r)) })
+	parallel(c, c.N(400, 5000), func(i int, r *RNG) { c11Check(c, c11GenDisp(r)) })
 }
 
 func init() { runners["C11"] = runC11 }
